@@ -170,6 +170,17 @@ func (e *Engine) genSigCases(p *sim.Plan, r *sim.Rand) {
 			p.Steps = append(p.Steps, sim.Step{Id: id, Op: "sig", K: mode, N: int(t), T: []string{"entity", "cache"}[id%2]})
 		}
 	}
+	// the same for a commit that carries no operation: the merge commit that joins two branches
+	// of somebody else's edits names an author too, and is signed like any other
+	for _, t := range ts {
+		if t < 4 {
+			continue
+		}
+		for _, mode := range []string{"right-key", "removed-key", "future-key", "stranger-key", "unsigned", "altered"} {
+			id++
+			p.Steps = append(p.Steps, sim.Step{Id: id, Op: "sig", K: mode, S: "merge", N: int(t), T: []string{"entity", "cache"}[id%2]})
+		}
+	}
 }
 
 func sortU(a []uint64) {
@@ -213,7 +224,7 @@ func (e *Engine) sigCase(p *sim.Plan, st *sim.Step, res *sim.RunResult, keep boo
 	defer cw.close()
 	var vs []sim.Violation
 	add := func(kind, format string, a ...interface{}) {
-		vs = append(vs, sim.Violation{Property: p.Property, Kind: kind, Detail: fmt.Sprintf("commit at edit time %d, mode %s, key history %v, victim via %s API: ", T, st.K, evs, st.T) + fmt.Sprintf(format, a...)})
+		vs = append(vs, sim.Violation{Property: p.Property, Kind: kind, Detail: fmt.Sprintf("%scommit at edit time %d, mode %s, key history %v, victim via %s API: ", map[string]string{"merge": "merge "}[st.S], T, st.K, evs, st.T) + fmt.Sprintf(format, a...)})
 	}
 
 	// ---- the honest author: identity whose versions declare the key history
@@ -226,6 +237,15 @@ func (e *Engine) sigCase(p *sim.Plan, st *sim.Step, res *sim.RunResult, keep boo
 		return nil, "skipped"
 	}
 	if err := author.Commit(H.Sim); err != nil {
+		res.HarnessErr = err.Error()
+		return nil, "skipped"
+	}
+	// somebody without keys, whose commits need no signature
+	plain, err := identity.NewIdentity(H.Sim, "Plain Author", "plain@example.org")
+	if err == nil {
+		err = plain.Commit(H.Sim)
+	}
+	if err != nil {
 		res.HarnessErr = err.Error()
 		return nil, "skipped"
 	}
@@ -385,6 +405,62 @@ func (e *Engine) sigCase(p *sim.Plan, st *sim.Step, res *sim.RunResult, keep boo
 			return nil, "skipped"
 		}
 		cw.w.Act(nil)
+	} else if st.S == "merge" {
+		// crafted: root and two branches by the author without keys, joined at edit time T by a
+		// commit without operations in the name of the keyed author
+		plainId := string(plain.Id())
+		rootN := &node{Spec: model.PackSpec{Author: plainId, Version: 4, Edit: 1, Create: 1, Ops: []json.RawMessage{g.createOp()}}}
+		bugId = model.Sha256Hex(rootN.Spec.Ops[0])
+		comments := []string{bugId}
+		c1 := &node{Spec: model.PackSpec{Author: plainId, Version: 4, Edit: 2, Ops: []json.RawMessage{g.editOp(&comments)}}}
+		c2 := &node{Spec: model.PackSpec{Author: plainId, Version: 4, Edit: 3, Ops: []json.RawMessage{g.editOp(&comments)}}}
+		rh, err := model.StoreCommitOf(cw.adv, rootN.entries())
+		var h1, h2 repository.Hash
+		if err == nil {
+			h1, err = model.StoreCommitOf(cw.adv, c1.entries(), rh)
+		}
+		if err == nil {
+			h2, err = model.StoreCommitOf(cw.adv, c2.entries(), rh)
+		}
+		if err != nil {
+			res.HarnessErr = "store branches: " + err.Error()
+			return nil, "skipped"
+		}
+		mg := &node{Spec: model.PackSpec{Author: authorId, Version: 4, Edit: T}}
+		tree, err := model.StoreEntries(cw.adv, mg.entries())
+		if err != nil {
+			res.HarnessErr = err.Error()
+			return nil, "skipped"
+		}
+		var commit repository.Hash
+		switch st.K {
+		case "unsigned":
+			commit, err = cw.adv.StoreCommit(tree, h1, h2)
+		case "altered":
+			// a valid signature made for the same tree joining the branches the other way round
+			signed, e2 := cw.adv.StoreSignedCommit(tree, keys[pick].entity(), h2, h1)
+			if e2 != nil {
+				res.HarnessErr = e2.Error()
+				return nil, "skipped"
+			}
+			sc, e3 := cw.w.Hubs[1].Repo.CommitObject(plumbing.NewHash(string(signed)))
+			if e3 != nil {
+				res.HarnessErr = e3.Error()
+				return nil, "skipped"
+			}
+			commit, err = storeRawCommit(cw, tree, []repository.Hash{h1, h2}, sc.PGPSignature)
+		default:
+			commit, err = cw.adv.StoreSignedCommit(tree, keys[pick].entity(), h1, h2)
+		}
+		if err != nil {
+			res.HarnessErr = "store merge commit: " + err.Error()
+			return nil, "skipped"
+		}
+		if err := cw.adv.UpdateRef("refs/bugs/"+bugId, commit); err != nil {
+			res.HarnessErr = err.Error()
+			return nil, "skipped"
+		}
+		res.Probes["sig_on_merge_commit"]++
 	} else {
 		// crafted: one root commit at edit time T
 		root := &node{Spec: model.PackSpec{Author: authorId, Version: 4, Edit: T, Create: 1, Ops: []json.RawMessage{g.createOp()}}}
